@@ -57,6 +57,25 @@ func (s *State) LoginEnable(pass string, cfg *program.Config) {
 	s.checkBanner(bannerLines, cfg)
 }
 
+// GetConfig sends command that shows the current configuration and
+// returns its output.
+// Aborts if device has rejected the command, because the error message
+// would be taken as empty configuration otherwise.
+func (s *State) GetConfig(cmd string) string {
+	out := s.Conn.GetCmdOutput(cmd)
+	for _, line := range strings.Split(out, "\n") {
+		line = strings.TrimSpace(line)
+		if line == "" || line == "^" || strings.HasPrefix(line, "WARNING:") {
+			continue
+		}
+		if strings.HasPrefix(line, "%") || strings.HasPrefix(line, "ERROR:") {
+			errlog.Abort("Got unexpected output from '%s':\n%s", cmd, out)
+		}
+		break
+	}
+	return out
+}
+
 func (s *State) checkBanner(lines string, cfg *program.Config) {
 	if rx := cfg.CheckBanner; rx != nil && rx.FindStringIndex(lines) == nil {
 		s.errUnmanaged =
